@@ -13,6 +13,7 @@ pub mod c02;
 pub mod c03;
 pub mod c04;
 pub mod c05;
+pub mod c10;
 pub mod general;
 pub mod sweep;
 
@@ -32,7 +33,7 @@ pub const FOCUS_ATTEMPT: Granularity = Granularity::Focus(
     ],
 );
 
-pub const PROPS: &[&str] = &["C01", "C02", "C03", "C04", "C05"];
+pub const PROPS: &[&str] = &["C01", "C02", "C03", "C04", "C05", "C10"];
 
 pub fn jobs(prop: &str, tier: Tier) -> Vec<Job> {
     match prop {
@@ -41,6 +42,7 @@ pub fn jobs(prop: &str, tier: Tier) -> Vec<Job> {
         "C03" => c03::jobs(tier),
         "C04" => c04::jobs(tier),
         "C05" => c05::jobs(tier),
+        "C10" => c10::jobs(tier),
         _ => vec![],
     }
 }
@@ -118,5 +120,25 @@ pub fn pipeline_job(
                 s
             })
         }),
+        seq: None,
+    }
+}
+
+/// A sequential enumeration job.
+pub fn seq_job(family: &'static str, id: String, describe: serde_json::Value, seq: crate::job::SeqFn) -> Job {
+    Job {
+        id,
+        family,
+        gran: COARSE,
+        bound: 0,
+        split: true,
+        step_cap: 0,
+        body: Arc::new(|| unreachable!()),
+        judge: Arc::new(|_| Judgement::Ok),
+        describe,
+        hang_is_violation: false,
+        must_be_nontrivial: false,
+        show: None,
+        seq: Some(seq),
     }
 }
